@@ -9,6 +9,8 @@ candidates reported by hook H1 independently of the code's own ranking.
 
 from __future__ import annotations
 
+import math
+
 import numpy as np
 
 TOL = 1e-4
@@ -55,27 +57,28 @@ def _ranks(vals):
 
 
 def _landscape(kind, name):
-    """returns (jax residual fn, numpy exact squared residual fn)"""
+    """returns (jax residual fn, exact residual fn on numpy scalars)"""
     import jax.numpy as jnp
 
+    f64 = lambda v: np.asarray(v, dtype=np.float64)
     if kind == "ode":
         if name == "mono":
-            return (lambda t: t), (lambda t: float(t) ** 2)
+            return (lambda t: t), (lambda t: float(t))
         if name == "anti":
-            return (lambda t: 2.0 - t), (lambda t: (2.0 - float(t)) ** 2)
-        return (lambda t: 1.0 - jnp.abs(t - 0.4)), (lambda t: (1.0 - abs(float(t) - 0.4)) ** 2)
+            return (lambda t: 2.0 - t), (lambda t: 2.0 - float(t))
+        return (lambda t: 1.0 - jnp.abs(t - 0.4)), (lambda t: 1.0 - abs(float(t) - 0.4))
     if kind == "statio":
         if name == "mono":
-            return (lambda x: x[0] + 2.0 * jnp.sum(x[1:])), (lambda x: (float(x[0]) + 2.0 * float(np.sum(x[1:]))) ** 2)
+            return (lambda x: x[0] + 2.0 * jnp.sum(x[1:])), (lambda x: float(x[0]) + 2.0 * float(np.sum(f64(x[1:]))))
         if name == "anti":
-            return (lambda x: 5.0 - x[0] - 2.0 * jnp.sum(x[1:])), (lambda x: (5.0 - float(x[0]) - 2.0 * float(np.sum(x[1:]))) ** 2)
-        return (lambda x: 2.0 - jnp.sum(jnp.abs(x - 0.4))), (lambda x: (2.0 - float(np.sum(np.abs(np.asarray(x, dtype=np.float64) - 0.4)))) ** 2)
+            return (lambda x: 5.0 - x[0] - 2.0 * jnp.sum(x[1:])), (lambda x: 5.0 - float(x[0]) - 2.0 * float(np.sum(f64(x[1:]))))
+        return (lambda x: 2.0 - jnp.sum(jnp.abs(x - 0.4))), (lambda x: 2.0 - float(np.sum(np.abs(f64(x) - 0.4))))
     if name == "mono":
-        return (lambda t, x: t + 3.0 * x[0]), (lambda t, x: (float(t) + 3.0 * float(x[0])) ** 2)
+        return (lambda t, x: t + 3.0 * x[0]), (lambda t, x: float(t) + 3.0 * float(x[0]))
     if name == "anti":
-        return (lambda t, x: 6.0 - 3.0 * t - x[0]), (lambda t, x: (6.0 - 3.0 * float(t) - float(x[0])) ** 2)
+        return (lambda t, x: 6.0 - 3.0 * t - x[0]), (lambda t, x: 6.0 - 3.0 * float(t) - float(x[0]))
     return (lambda t, x: 3.0 - jnp.abs(t - 0.4) - 2.0 * jnp.abs(x[0] - 0.6)), (
-        lambda t, x: (3.0 - abs(float(t) - 0.4) - 2.0 * abs(float(x[0]) - 0.6)) ** 2)
+        lambda t, x: 3.0 - abs(float(t) - 0.4) - 2.0 * abs(float(x[0]) - 0.6))
 
 
 def _build(cfg):
@@ -120,11 +123,18 @@ def _build(cfg):
 
     u = PINN(mlp=Net(jnp.array([1.0])), slice_solution=jnp.s_[:], eq_type=eqt, input_transform=lambda i, p: i,
              output_transform=lambda i, o, p: o)
-    rfun, rexact = _landscape(kind, cfg.get("land", "mono"))
+    rfun, rexact0 = _landscape(kind, cfg.get("land", "mono"))
     vec = cfg.get("ret", "scalar") == "vec"
+    vec2 = cfg.get("ret", "scalar") == "vec2"      # two components of opposite sign: |r|^2 = f^2 + (0.1 - 1.1 f)^2, sum = 0.1 (1 - f)
+    if vec2:
+        rexact = lambda *a: rexact0(*a) ** 2 + (0.1 - 1.1 * rexact0(*a)) ** 2      # squared norm of the two components
+    else:
+        rexact = lambda *a: rexact0(*a) ** 2
 
     def shape(r):
         r = jnp.squeeze(r)
+        if vec2:
+            return jnp.stack([r, 0.1 - 1.1 * r])
         return r[None] if vec else r
 
     if kind == "ode":
